@@ -251,7 +251,6 @@ package fiber
 //@   modifies ciHandler
 //@   ensures ciHandler == old(ciHandler)[recv := handler]
 //@ func CustomCtx.Method(recv, override) assumed pure
-//@   requires [C07] method-known: cmethodInt(recv, epoch) != -1
 //@ func CustomCtx.getPathOriginal(recv) assumed pure
 //@ func (*App).methodExistCustom assumed
 //@   modifies ciIdx, heap(E_string), respHdr, respSet
